@@ -27,7 +27,7 @@ RULE = ("generated systems of 1-4 well-posed molecules with consistent mixture s
 ASSUMPTIONS = ["membership of a molecule in a component is decided by the residue tags + verification of gbsv/genoracle.py",
                "System.generator is driven through its property getter with an explicit generator"]
 
-SIZES = {"quick": 1300, "thorough": 40000}
+SIZES = {"quick": 1300, "thorough": 25000}
 
 
 def plan(tier, seed):
